@@ -993,34 +993,61 @@ func aGoValue(x sv) (any, bool) {
 // nameWriter: Name.PS evaluated for every byte value alone, after and before a regular
 // character: it must refuse (panic) exactly the names that contain a byte outside the
 // regular-character class — the class the scanner ends a name at — and write the others as /name.
+// The class is a class of BYTES: the same is decided for names whose bytes form multi-byte
+// characters of the text encoding (every two-byte UTF-8 sequence, and three- and four-byte
+// sequences for every value of the low eight bits of the character number), so that a serialiser
+// that looks at wider units than bytes — and so at values no byte of the name has — disagrees
+// with the scanner, which accepts every byte above 127 in a name.
 func (c *Ctx) nameWriter(regular [256]bool) {
 	fn := c.method("postscript", "Name", "PS")
 	st := c.aInit("postscript")
 	var diffs []string
 	n := 0
+	try := func(in string) {
+		n++
+		bad := -1
+		for i := 0; i < len(in); i++ {
+			if !regular[in[i]] {
+				bad = int(in[i])
+				break
+			}
+		}
+		ev := st.newEval()
+		ret := ev.runFunc(fn, []sv{aStrV(in)})
+		panics := false
+		for _, ef := range ev.effects {
+			if ef.what == "panic" {
+				panics = true
+			}
+		}
+		switch {
+		case ret == nil && !panics:
+			diffs = append(diffs, fmt.Sprintf("Name.PS could not be evaluated for %q (%s)", in, ev.why))
+		case bad < 0 && panics:
+			diffs = append(diffs, fmt.Sprintf("the name %q is refused although it consists of regular characters (bytes % x)", in, in))
+		case bad >= 0 && !panics:
+			diffs = append(diffs, fmt.Sprintf("the name %q is written (as %s) although byte %d is not a regular character: the scanner ends the name there", in, ev.render(ret[0]), bad))
+		case bad < 0 && (len(ret) != 1 || ret[0].k != svString || ret[0].s != "/"+in):
+			diffs = append(diffs, fmt.Sprintf("the name %q is written as %s, expected %q", in, ev.render(ret[0]), "/"+in))
+		}
+	}
 	for b := 0; b < 256; b++ {
 		one := string([]byte{byte(b)})
 		for _, in := range []string{one, "a" + one, one + "a", "ab" + one + "c"} {
-			n++
-			ev := st.newEval()
-			ret := ev.runFunc(fn, []sv{aStrV(in)})
-			panics := false
-			for _, ef := range ev.effects {
-				if ef.what == "panic" {
-					panics = true
-				}
-			}
-			switch {
-			case ret == nil && !panics:
-				diffs = append(diffs, fmt.Sprintf("Name.PS could not be evaluated for %q (%s)", in, ev.why))
-			case regular[b] && panics:
-				diffs = append(diffs, fmt.Sprintf("the name %q is refused although it consists of regular characters", in))
-			case !regular[b] && !panics:
-				diffs = append(diffs, fmt.Sprintf("the name %q is written (as %s) although byte %d is not a regular character: the scanner ends the name there", in, ev.render(ret[0]), b))
-			case regular[b] && (len(ret) != 1 || ret[0].k != svString || ret[0].s != "/"+in):
-				diffs = append(diffs, fmt.Sprintf("the name %q is written as %s, expected %q", in, ev.render(ret[0]), "/"+in))
-			}
+			try(in)
 		}
+	}
+	// bytes that together are one character of the text encoding
+	var multi []string
+	for cp := 0x80; cp < 0x800; cp++ {
+		multi = append(multi, string(rune(cp)))
+	}
+	for low := 0; low < 256; low++ {
+		multi = append(multi, string(rune(0x2000+low)), string(rune(0x1F600+low)))
+	}
+	for _, m := range multi {
+		try(m)
+		try("a" + m + "b")
 	}
 	ev := st.newEval()
 	ret := ev.runFunc(fn, []sv{aStrV("")})
